@@ -1,3 +1,4 @@
+import Generated.Facts
 import SsoModel.Forward
 import SsoSpec.C18
 
@@ -149,5 +150,16 @@ theorem C03_chain : Sso.Generated.skel_proxy_NewUpstreamReverseProxy =
     ["typeswitch{", "case{", "call:StaticDirectorFunc", "}", "case{", "call:RewriteDirectorFunc", "}", "case{", "call:Errorf", "return", "}", "}",
      "func{", "range{", "call:Del", "}", "call:Del", "return", "}", "if{", "call:newTimeoutHandler", "}", "if{", "call:newSigningHandler", "}",
      "call:deleteCookieHandler", "return"] := by decide
+
+/-- Tie (T1): the session-cookie filter and its place in the handler chain — call/branch/store skeletons regenerated from the source on every run; the expectations below are
+what the model in this file transliterates. A structural edit of any of these functions breaks this theorem and sends the
+check searching for a failing input. -/
+theorem C03_wiring :
+    Sso.Generated.skel_proxy_deleteCookieHandler =
+      ["func{", "call:deleteCookie", "call:ServeHTTP", "}", "call:HandlerFunc", "return"] ∧
+    Sso.Generated.skel_proxy_deleteCookie =
+      ["call:Cookies", "range{", "if{", "call:String", "call:append", "}", "}", "call:len", "if{", "call:Del", "return", "}", "call:Join", "call:Set"] ∧
+    Sso.Generated.skel_proxy_DirectorFunc =
+      ["func{", "store:req.URL.Scheme", "store:req.URL.Host", "call:singleJoiningSlash", "store:req.URL.Path", "if{", "store:req.URL.RawQuery", "}", "else{", "store:req.URL.RawQuery", "}", "if{", "call:Set", "}", "call:Add", "if{", "store:req.Host", "}", "}", "return"] := by decide
 
 end Sso.Forward
